@@ -73,6 +73,12 @@ abbrev sliceFrom (b : Bytes) (s : Nat) : Bytes := b.drop s
 def byteOf (v : Int) : Py UInt8 :=
   if 0 ≤ v ∧ v < 256 then .ok (u8 v.toNat) else .error .value
 
+/-- `bytearray.append(v)` for `v ≥ 0`. -/
+def byteOfN (v : Nat) : Py UInt8 :=
+  if v < 256 then .ok (u8 v) else .error .value
+
+theorem byteOfN_ok {v : Nat} (h : v < 256) : byteOfN v = .ok (u8 v) := by simp [byteOfN, h]
+
 /-- `IntEnum(v)`: `ValueError` iff `v` is not a member. -/
 def enumOf (members : List Nat) (v : Nat) : Py Nat :=
   if v ∈ members then .ok v else .error .value
@@ -92,6 +98,15 @@ theorem slice_append_left (a b : Bytes) (s e : Nat) (h : e ≤ a.length) :
 
 theorem idx_append_left (a b : Bytes) (i : Nat) (h : i < a.length) : idx (a ++ b) i = idx a i := by
   simp [idx, List.getElem?_append_left h]
+
+theorem idx_drop (b : Bytes) (k i : Nat) : idx (b.drop k) i = idx b (k + i) := by
+  simp [idx, List.getElem?_drop]
+
+theorem slice_drop (b : Bytes) (k s e : Nat) : slice (b.drop k) s e = slice b (k + s) (k + e) := by
+  simp only [slice, List.take_drop, List.drop_drop]
+
+theorem slice_eq_of_append (a m c : Bytes) : slice (a ++ m ++ c) a.length (a.length + m.length) = m := by
+  simp [slice, List.take_append, List.drop_append]
 
 /-- Simp set that unfolds the `Except` monad plumbing in decoder models. -/
 theorem bind_ok {α β : Type} (a : α) (f : α → Py β) : (Except.ok a >>= f) = f a := rfl
